@@ -620,14 +620,14 @@ class Interp:
         elif k == 'if':
             for cond, body in s[1]:
                 t, v = self.eval(cond)
-                if convert(v, t, '%') != 0:
+                if v != 0:
                     self.block(body)
                     return
             if s[2] is not None:
                 self.block(s[2])
         elif k == 'if1':
             t, v = self.eval(s[1])
-            if convert(v, t, '%') != 0:
+            if v != 0:
                 self.block(s[2])
             elif s[3] is not None:
                 self.block(s[3])
@@ -637,7 +637,7 @@ class Interp:
             while True:
                 self.tick()
                 t, v = self.eval(s[1])
-                if convert(v, t, '%') == 0:
+                if v == 0:
                     break
                 self.block(s[2])
         elif k == 'do':
@@ -757,7 +757,7 @@ class Interp:
             self.tick()
             if kind in ('do_while', 'do_until'):
                 t, v = self.eval(cond)
-                c = convert(v, t, '%') != 0
+                c = v != 0
                 if (kind == 'do_while' and not c) or \
                         (kind == 'do_until' and c):
                     break
@@ -769,7 +769,7 @@ class Interp:
                 raise
             if kind in ('loop_while', 'loop_until'):
                 t, v = self.eval(cond)
-                c = convert(v, t, '%') != 0
+                c = v != 0
                 if (kind == 'loop_while' and not c) or \
                         (kind == 'loop_until' and c):
                     break
